@@ -529,8 +529,22 @@ def l3_gen(seed, families):
     # file scope + function body + nested blocks
     ordinary = [{}]   # typedef / variable / enum constant share one name space
     tags = [{}]
-    lines = ["long bad;", "int line;"]
+    lines = ["long bad;", "int line;", "#define ID_(x) x"]
+    alias = {}
+    for k, n in enumerate(names):
+        if r.below(2):
+            alias[n] = "AL_%d" % k
+            lines.append("#define AL_%d %s" % (k, n))
     depth = 0
+
+    def ref(n):
+        # a reference is spelt directly, through an object-like alias macro, or through a function-like macro
+        c = r.below(4)
+        if c == 0 and n in alias:
+            return alias[n]
+        if c == 1:
+            return "ID_(%s)" % n
+        return n
     probes = 0
     uniq = [0]
 
@@ -549,12 +563,13 @@ def l3_gen(seed, families):
         b = lookup(ordinary, n)
         if b:
             kind, v = b
-            e = "sizeof(%s)" % n if kind == "typedef" else n
-            lines.append("  if (%s != %d) { bad++; if (!line) line = __LINE__; }" % (e, v))
+            e = "sizeof(%s)" % ref(n) if kind == "typedef" else ref(n)
+            # (no ++ / op= here: they declare hidden temporaries, and a probe must not disturb the tables it probes)
+            lines.append("  line = line ? line : ((%s) != %d ? __LINE__ : 0);" % (e, v))
             probes += 1
         t = lookup(tags, n)
         if t:
-            lines.append("  if (sizeof(struct %s) != %d) { bad++; if (!line) line = __LINE__; }" % (n, t))
+            lines.append("  line = line ? line : (sizeof(struct %s) != %d ? __LINE__ : 0);" % (ref(n), t))
             probes += 1
 
     def declare(n, at_file_scope):
@@ -663,7 +678,7 @@ def l3_gen(seed, families):
         probe(n)
     while kinds:
         close_one()
-    lines.append("  return bad ? (line %% 250) + 1 : 0;" .replace("%%", "%"))
+    lines.append("  return line ? (line %% 250) + 1 : 0;" .replace("%%", "%"))
     lines.append("}")
     return "\n".join(lines) + "\n", probes, big
 
